@@ -577,9 +577,15 @@ func TestC03KnownFindings(t *testing.T) {
 		fmt.Println("CHILD-RETURNED", out)
 		return
 	}
+	if os.Getenv("VERIF_CHILD") == "bigcoef" {
+		out := obs.EvalText("toInt(123456789012345678901234567890123456789e-99999999)", nil)
+		fmt.Println("CHILD-RETURNED", out)
+		return
+	}
 	if i, _ := h.Shard(); i != 0 {
 		return
 	}
+	defer confirmBigCoefFinding(t)
 	run := h.Begin("C03", "known-findings", "re-confirmation of the recorded finding KF-C03-cycle in a child process with a 64 MiB stack limit; not counted as exploration")
 	defer run.End(t)
 	cmd := exec.Command(os.Args[0], "-test.run", "^TestC03KnownFindings$", "-test.count=1")
@@ -613,6 +619,39 @@ func TestC03KnownFindings(t *testing.T) {
 	}
 }
 
+// confirmBigCoefFinding re-confirms KF-C03-bigcoef: a child process evaluates
+// toInt(123456789012345678901234567890123456789e-99999999) and is given 8 s.
+func confirmBigCoefFinding(t *testing.T) {
+	const text = "toInt(123456789012345678901234567890123456789e-99999999)"
+	run := h.Begin("C03", "known-findings-bigcoef", "re-confirmation of the recorded finding KF-C03-bigcoef: a child process evaluates "+text+" and is given 8 s; not counted as exploration")
+	defer run.End(t)
+	cmd := exec.Command(os.Args[0], "-test.run", "^TestC03KnownFindings$", "-test.count=1")
+	cmd.Env = append(os.Environ(), "VERIF_CHILD=bigcoef", "VERIF_OUT=")
+	done := make(chan struct{})
+	var outb []byte
+	go func() { outb, _ = cmd.CombinedOutput(); close(done) }()
+	hung := false
+	select {
+	case <-done:
+	case <-time.After(8 * time.Second):
+		cmd.Process.Kill()
+		<-done
+		hung = true
+	}
+	run.Count(true, "")
+	if !hung {
+		o := strings.TrimSpace(string(outb))
+		run.Note("known finding KF-C03-bigcoef did not reproduce: " + o[:min(len(o), 200)])
+		return
+	}
+	if !h.KnownOpen("KF-C03-bigcoef") {
+		run.Fail("c03", mkEvalCase(text, map[string]spec.V{}, ""), "evaluation did not return within 8 s in a child process (running time follows the magnitude of the exponent, not the length of the formula)")
+		return
+	}
+	run.Known("KF-C03-bigcoef: '" + text + "' (a number of more than 19 significant digits whose exponent lies millions away from zero, handed to an integer conversion - toInt, & | ^ ~, an integer parameter - or to ln / log) does not return in any useful time: the decimal library's Int64 / Uint64 multiply or divide such a coefficient by the full power of ten")
+	run.Sample("known-finding", text)
+}
+
 // c03Extremes lists formulas over numbers whose exponents lie millions away
 // from zero: the arithmetic operators and every builtin that takes a number
 // (string lengths and dates are left out: the statement bounds pad / repeat
@@ -626,7 +665,32 @@ func c03Extremes() []string {
 			out = append(out, fmt.Sprintf(f, n))
 		}
 	}
+	// numbers of more than 19 significant digits: everything but the shapes of
+	// the recorded finding KF-C03-bigcoef (integer conversion, ln, log)
+	c03ExtremesExcluded = 0
+	for _, n := range []string{"123456789012345678901234567890123456789e-99999999", "-12345678901234567890123e99999999", "toFloat('98765432109876543210.5e-88888888')"} {
+		for _, f := range fns {
+			if c03BigCoefShape(f) {
+				c03ExtremesExcluded++
+				continue
+			}
+			out = append(out, fmt.Sprintf(f, n))
+		}
+	}
 	return out
+}
+
+var c03ExtremesExcluded int
+
+// c03BigCoefShape: the formula shape hands its number to an integer conversion
+// (toInt, the bit operators) or to ln / log.
+func c03BigCoefShape(f string) bool {
+	for _, m := range []string{"toInt(", " & ", " | ", "ln(", "log("} {
+		if strings.Contains(f, m) {
+			return true
+		}
+	}
+	return false
 }
 
 // TestC03Extremes: the running time of an evaluation must not follow the
@@ -649,7 +713,7 @@ func TestC03Extremes(t *testing.T) {
 	if i, _ := h.Shard(); i != 0 {
 		return
 	}
-	run := h.Begin("C03", "extremes", "bounded-exhaustive: 39 operators and number builtins x 11 numbers whose exponents lie between 10^6 and 10^9 away from zero (literals, numeric strings, a computed product), evaluated in a child process that is given 60 s for all of them (the unchanged tree needs milliseconds); oracle: every evaluation returns a value or an error - a formula of 17 bytes whose running time follows the magnitude of its exponent does not terminate in any useful sense; every case non-trivial")
+	run := h.Begin("C03", "extremes", "bounded-exhaustive: 39 operators and number builtins x 11 numbers whose exponents lie between 10^6 and 10^9 away from zero (literals, numeric strings, a computed product) and x 3 such numbers of more than 19 significant digits (without the shapes of the recorded finding KF-C03-bigcoef, which are counted as excluded), evaluated in a child process that is given 60 s for all of them (the unchanged tree needs milliseconds); oracle: every evaluation returns a value or an error - a formula of 17 bytes whose running time follows the magnitude of its exponent does not terminate in any useful sense; every case non-trivial")
 	defer run.End(t)
 	cmd := exec.Command(os.Args[0], "-test.run", "^TestC03Extremes$", "-test.count=1")
 	cmd.Env = append(os.Environ(), "VERIF_CHILD=extremes", "VERIF_OUT=")
@@ -678,6 +742,9 @@ func TestC03Extremes(t *testing.T) {
 	}
 	for i := 0; i < reached; i++ {
 		run.Count(true, "extreme exponent")
+	}
+	for i := 0; i < c03ExtremesExcluded; i++ {
+		run.Class("excluded-known-finding-KF-C03-bigcoef")
 	}
 	if reached > 0 {
 		run.Sample("extreme exponent", all[0])
